@@ -110,6 +110,12 @@ def bases():
         [comp('P', 0, 'gen', toks('-i', R(0)), [ref(None, 'data/in.txt')]),
          comp('C', 1, 'ls', toks('-l', R(0)), [ref('P', None)])],
         'C', files={'data/in.txt': 'hello'}, outputs={'P': {'out.txt': 'produced'}})
+    # a chain of working directories: P -> Q (directory of P) -> C (directory of Q)
+    out['dirchain'] = _world(
+        [comp('P', 0, 'gen', toks('-i', R(0)), [ref(None, 'data/in.txt')]),
+         comp('Q', 0, 'mid', toks('-d', R(0)), [ref('P', None, 'ref', False)]),
+         comp('C', 1, 'ls', toks('-l', R(0)), [ref('Q', None)])],
+        'C', files={'data/in.txt': 'hello'}, outputs={'P': {'out.txt': 'produced'}, 'Q': {'mid.txt': 'middle'}})
     # the working directory of a producer copied/linked, NOT mentioned in the arguments
     out['dircopy'] = _world(
         [comp('P', 0, 'gen', toks('-i', R(0)), [ref(None, 'data/in.txt')]),
@@ -166,6 +172,8 @@ def _rename(w, old, new):
     if old in w['outputs']:
         w['outputs'][new] = w['outputs'].pop(old)
     w['remove'] = [(new + x[len(old):]) if x.startswith(old + '/') else x for x in w['remove']]
+    if w['inst'].get('transient_missing'):
+        w['inst']['transient_missing'] = [(new + x[len(old):]) if x.startswith(old + '/') else x for x in w['inst']['transient_missing']]
     if w['target'] == old:
         w['target'] = new
 
@@ -311,16 +319,18 @@ def variations(base_name, w0):
                 p['args'] = p['args'] + [' --more']
             else:
                 p['backend'] = {'kind': 'kubernetes', 'image': 'reg/prod:1'}
-            if base_name in ('dir', 'dircopy'):
-                _touch_dir(w, pn)
+            if base_name in ('dir', 'dircopy', 'dirchain'):
+                for q in producers:
+                    _touch_dir(w, q)
             yield 'producer', 'producer[%s]:%s (produced files unchanged)' % (pn, what), w
         w = new()
         w['files']['data/in.txt'] = _flip(w['files']['data/in.txt'], 'last') if 'data/in.txt' in w['files'] else 'x'
-        if base_name in ('dir', 'dircopy'):
-            _touch_dir(w, producers[0])
+        if base_name in ('dir', 'dircopy', 'dirchain'):
+            for q in producers:
+                _touch_dir(w, q)
         if any(r['prod'] is None and r['path'] == 'data/in.txt' for r in _get(w, pn)['refs']):
             yield 'producer', 'producer[%s]:input-content (produced files unchanged)' % pn, w
-        if base_name not in ('dir', 'dircopy'):
+        if base_name not in ('dir', 'dircopy', 'dirchain'):
             w = new(); fn = sorted(w['outputs'][pn])[-1]
             w['outputs'][pn][fn] = w['outputs'][pn][fn] + '!'
             yield 'produced', 'produced[%s/%s]:content' % (pn, fn), w
@@ -333,6 +343,9 @@ def variations(base_name, w0):
         if cands:
             r = cands[0]; pn = r['prod']
             w['remove'] = ['%s/renamed.txt' % pn if x == '%s/%s' % (pn, r['path']) else x for x in w['remove']]
+            if w['inst'].get('transient_missing'):
+                w['inst']['transient_missing'] = ['%s/renamed.txt' % pn if x == '%s/%s' % (pn, r['path']) else x
+                                                  for x in w['inst']['transient_missing']]
             w['outputs'][pn]['renamed.txt'] = w['outputs'][pn].pop(r['path']); r['path'] = 'renamed.txt'
             yield 'produced', 'produced:file-renamed-same-content', w
     if base_name == 'two' and {'A-B', 'B'} <= set(producers):
@@ -479,9 +492,26 @@ def variations(base_name, w0):
         yield 'missing', 'missing[ref%d]' % ri, w
     for pn in producers:
         for r in _get(w0, pn)['refs']:
-            if r['path'] is not None and base_name not in ('dir', 'dircopy'):
+            # (dircopy: the reference leaves no trace in the hash at all - accepted known finding - so a missing input
+            #  of its producer is not enumerated there)
+            if r['path'] is not None and base_name != 'dircopy':
                 w = new(); w['remove'].append(r['path'] if r['prod'] is None else '%s/%s' % (r['prod'], r['path']))
                 yield 'missing', 'missing-upstream[%s]' % pn, w
+    # ---------- an input that was missing when the hashes were first asked for and appeared later: the hashes that are
+    # read afterwards (same objects, nothing reset by the harness) must be those of the complete world
+    cands = []
+    for ri, r in enumerate(t0['refs']):
+        if r['path'] is not None:
+            cands.append(('ref%d' % ri, r['path'] if r['prod'] is None else '%s/%s' % (r['prod'], r['path'])))
+    for pn in producers:
+        for r in _get(w0, pn)['refs']:
+            if r['path'] is not None:
+                cands.append(('upstream[%s]' % pn, r['path'] if r['prod'] is None else '%s/%s' % (r['prod'], r['path'])))
+    for lbl, path in cands:
+        if path in w0['remove'] or path.startswith('EXT/'):
+            continue
+        w = new(); w['inst']['transient_missing'] = [path]
+        yield 'appeared', 'missing-at-first-then-present[%s]' % lbl, w
 
 
 def _set_content(w, r, fn):
@@ -721,6 +751,26 @@ def realise(world, root):
         node = 'stage%d.%s' % (c['stage'], c['name'])
         specs[c['name']] = g.nodes[node]['componentSpecification']
         specs[c['name']].memoization_reset()
+    if inst.get('transient_missing'):
+        # history: the files are missing, every hash is asked for once, the files appear; what is read below comes from
+        # the same specification objects and nothing is reset in between
+        saved = {}
+        for x in inst['transient_missing']:
+            if x in (world.get('remove') or []):
+                continue        # removed for good by another variation
+            if x.split('/')[0] in ('data', 'input'):
+                full = os.path.join(exp.instanceDirectory.location, x)
+            else:
+                cn, rel = x.split('/', 1)
+                full = os.path.join(exp.instanceDirectory.workingDirectoryForComponent(by_name[cn]['stage'], cn), rel)
+            with open(full, 'rb') as f:
+                saved[full] = f.read()
+            os.remove(full)
+        for n, cs in specs.items():
+            cs.memoization_hash, cs.memoization_hash_fuzzy
+        for full, data in saved.items():
+            with open(full, 'wb') as f:
+                f.write(data)
     for n, cs in specs.items():
         out[n] = {'strong': cs.memoization_hash, 'fuzzy': cs.memoization_hash_fuzzy, 'info': cs.memoization_info,
                   'info_fuzzy': cs.memoization_info_fuzzy}
